@@ -13,6 +13,15 @@ CHECKS = [
  chk("C01", "Every observed Backend.simulate / translate_circuit call on seeded random and exhaustively placed single-gate circuits (cirq numeric, sympy numeric and symbolic, exact and sampled) is replayed on an independent numpy simulator and compared exactly, incl. advertised index order; held = no disagreement on the executions observed, with a gate x controls x backend coverage table and branch reach in evidence.",
      "Trusted: vlib.refsim gate matrices (textbook definitions), numpy, scipy chi-square; only cirq and sympy are installed.",
      "runtime reference-model monitor (independent state-vector simulator) + statistical monitor for sampled mode", "DESIGN.md section 4 C01"),
+ chk("C02", "Each seeded (operator, circuit, initial state, desired mid-circuit outcome) is evaluated through every expectation path of the real code (cirq native, exact-frequency route, generic statevector loop of a user-defined Backend subclass, sampled variants, sympy, variance / standard error) and every returned number is compared with dense linear algebra on the reference state; sampled results with a 6-sigma rule. Held = no disagreement on the observed calls; evidence lists evaluations per path and branch reach of all seven anchored mechanisms.",
+     "Trusted: vlib.refsim + dense Pauli algebra, numpy. Statistical clauses are seeded and use 6-sigma bounds.",
+     "runtime reference-model monitor over the cross product of evaluation paths + statistical monitor", "DESIGN.md section 4 C02"),
+ chk("C09", "Seeded random circuits with hostile angles / echo gates are pushed through inverse, merge_rotations, remove_redundant_gates, remove_small_rotations, simplify (function and method forms), split/stack/trim/reindex, copy, +, *; the dense unitary of every output is compared with the prescribed function of the input's unitary (exact, up to phase, or within threshold x dropped gates), operands are snapshotted around every out-of-place call; all Clifford angles and gate-equality pairs are enumerated.",
+     "Trusted: vlib.refsim unitaries on <= 6 qubits; the dropped-rotation allowance is threshold x number of removed gates.",
+     "runtime reference-model monitor (dense unitaries) + operand snapshot invariants", "DESIGN.md section 4 C09"),
+ chk("C11", "History checker: seeded sequences of circuit-building, transformation and read-only operations run on real Circuit objects; after every step size/width/counts/arity counts/flags/depth are recomputed from list(circuit) and compared, copy() must succeed and be equal, rejected add_gate must leave no trace, read-only operations are bracketed by full snapshots; plus a Gate-constructor fuzz of malformed index specifications.",
+     "Trusted: recomputation from the public iterator; depth oracle = ASAP schedule; shadow flag for 'never given a fixed size'.",
+     "runtime history checker with shadow model + invariants at the API boundary", "DESIGN.md section 4 C11"),
 ]
 
 ALL = [f"C{i:02d}" for i in range(1, 21)]
